@@ -38,6 +38,8 @@ def wrap_expr(e, wrap):
         return e
     if wrap == 'raises_exception':
         return '(%s) // 0' % e
+    if wrap == 'syntax_error':
+        return '%s =' % e               # cannot be compiled at all: a failure like any other, never "no condition"
     if wrap == 'raises_true_text':
         return "(_ for _ in ()).throw(ValueError('true'))"
     if wrap == 'raises_t_text':
